@@ -115,8 +115,13 @@ def handle (payload impl : String) : String × String :=
     | some cfg, some bytes =>
       let model := VMD.runModel cfg bytes
       let verdict :=
+        -- a final PUSH cut short by the end of the code is outside the property's domain (the EVM
+        -- pads it with zeros, the tool's stream has an incomplete instruction there; see C10)
+        let code := bytes.toArray
+        let data := EVM.pushData code (code.size + 1) 0 []
+        let truncated := data.any (fun i => i ≥ bytes.length)
         if impl.startsWith "PANIC" then "FAIL C01-panic:" ++ impl
-        else if !(impl.startsWith "res=") then "ok"
+        else if !(impl.startsWith "res=") || truncated then "ok"
         else
           let stateTexts := (impl.splitOn " || ").drop 1
           let states := stateTexts.filterMap parseState
@@ -131,11 +136,70 @@ def handle (payload impl : String) : String × String :=
               -- every syntactically different computed key is a different storage cell to the tool
               let computedKey := states.any (fun s => s.st.any (fun (k, _) => k.kind != .knownData))
               let d := (diffsUnder {} bytes states).headD ""
-              if computedKey && (d.splitOn "storage[").length + (d.splitOn "stack:").length > 2
-              then s!"FAIL C07-computed-storage-key: {d.take 300}"
+              -- (a load through a computed key may have been stored to memory or combined further, so
+              -- the first difference can be anywhere; programs with computed keys are their own
+              -- flavour of the generator and hold none of the other recorded quirks)
+              if computedKey then s!"FAIL C07-computed-storage-key: {d.take 300}"
               else s!"FAIL C07-path-differs: {d.take 300}"
       (model, verdict)
     | _, _ => ("bad-request", "ok")
   | _ => ("bad-request", "ok")
+
+/-! ### C18 at the machine level (family `vm`): every value an instruction produced is within the
+size limit and reports its true size -/
+
+mutual
+/-- (real node count, every node records its real count) -/
+def countCheck : SV → Nat × Bool
+  | .node _ _ ks sz => let (n, ok) := countCheckList ks; (n + 1, ok && sz == n + 1)
+def countCheckList : List SV → Nat × Bool
+  | [] => (0, true)
+  | k :: ks => let (a, oa) := countCheck k; let (b, ob) := countCheckList ks; (a + b, oa && ob)
+end
+
+mutual
+/-- kind of a minimal over-limit node: over the limit itself while each kid is within it -/
+def minimalOver (lim : Nat) : SV → Option Kind
+  | .node k a ks sz =>
+    match minimalOverList lim ks with
+    | some x => some x
+    | none => if (countCheck (.node k a ks sz)).1 > lim then some k else none
+def minimalOverList (lim : Nat) : List SV → Option Kind
+  | [] => none
+  | k :: ks => match minimalOver lim k with
+    | some x => some x
+    | none => minimalOverList lim ks
+end
+
+def oracleC18 (cfg : VM.Cfg) (states : List SymState) : List String :=
+  let lim := max cfg.valueLimit 1
+  -- (the `UnwrittenStorageValue` placeholder a first load leaves in the storage map is bookkeeping,
+  -- not the result of an instruction: key size + 1)
+  let trees := states.flatMap (fun s => s.stack ++ s.memc.flatMap (·.2) ++
+    s.st.flatMap (fun (k, g) => k :: g.filter (fun v => v.kind != .unwrittenStorageValue)))
+  (match trees.find? (fun t => !(countCheck t).2) with
+   | some t => [s!"C18-reported-size-wrong: a {t.kind.name} value"]
+   | none => []) ++
+  (match trees.findSome? (minimalOver lim) with
+   | some k =>
+     -- `Storage::load` and `Memory::load_slice` build their results without the limit (finding D17)
+     if k == .sLoad || k == .unwrittenStorageValue || k == .concat then [s!"C18-unlimited-{k.name}: over {lim} nodes"]
+     else [s!"C18-over-limit: a {k.name} node over {lim} nodes"]
+   | none => [])
+
+/-- family `vm`: the oracles of `VMD.handle` plus C18 -/
+def handleVm (payload impl : String) : String × String :=
+  let (m, v) := VMD.handle payload impl
+  match payload.splitOn " " with
+  | [cfgS, _] =>
+    (match VMD.parseCfg cfgS with
+     | some cfg =>
+       if !(impl.startsWith "res=") then (m, v) else
+       let states := ((impl.splitOn " || ").drop 1).filterMap parseState
+       let extra := oracleC18 cfg states
+       if extra.isEmpty then (m, v)
+       else (m, if v == "ok" then VMD.verdictOf extra else v ++ " ;; " ++ " ;; ".intercalate extra)
+     | none => (m, v))
+  | _ => (m, v)
 
 end SLE.Driver.EvmD
